@@ -378,6 +378,11 @@ class AModel(Model):
 
     def call(self, f, args, kws, st, node):
         line = getattr(node, 'lineno', 0)
+        # self.__state__.get('<key>', <constant>) for a key the constructor's state literal does not list: a setting that exists only on archives
+        # built with an opt-in option (readonly=True) - every archive an existing caller builds answers with the default
+        if f[0] == 'attr' and f[1] == STATE and f[2] == 'get' and len(args) == 2 and not kws and is_const(args[0]) and is_const(args[1]):
+            if args[0][1] not in self._state_literal_keys():
+                return [R(st, args[1])]
         if f[0] == 'attr' and f[1][0] not in ('lib', 'self'):
             st.facts.setdefault('notnone', set()).add(f[1])     # a method was looked up on it
         # ---- methods of self
@@ -671,6 +676,24 @@ class AModel(Model):
                 # helper functions of the module are part of the code under analysis (e.g. a shared serializer/mode selector)
                 return self.engine.inline(fi.node, full[5:], {}, args, kws, st, node)
         return None
+
+    def _state_literal_keys(self):
+        ks = getattr(self, '_slk', None)
+        if ks is None:
+            ks = set()
+            fi, _ = self.find_method('__init__')
+            if fi is not None:
+                for x in ast.walk(fi.node):
+                    if isinstance(x, ast.Assign) and any(isinstance(t, ast.Attribute) and t.attr == '__state__' for t in x.targets) and isinstance(x.value, ast.Dict):
+                        ks |= set(k.value for k in x.value.keys if isinstance(k, ast.Constant))
+                    if isinstance(x, ast.Assign):
+                        for t in x.targets:
+                            if isinstance(t, ast.Subscript) and isinstance(t.value, ast.Attribute) and t.value.attr == '__state__' and isinstance(t.slice, ast.Constant):
+                                # set unconditionally at the top level of __init__?  (a store under `if <option>:` is the opt-in case)
+                                if x in fi.node.body:
+                                    ks.add(t.slice.value)
+            self._slk = ks
+        return ks
 
     def storage_helper_summary(self, fn, args, kws, st, line):
         """A module-level helper that wraps one storage primitive the way the pox functions do is that primitive (wrappers are recognised by what all their
